@@ -4,7 +4,7 @@ A model is `fn(interp, fn_ref, args, state, site, frame) -> [(ret, state)] | Non
 applicable, fall through to stepping into the body / the opaque default).
 """
 import re
-from .absint import Const, Top, Sym, Adt, Ref, FnV, UNIT, Infeasible, adt_base_name
+from .absint import Const, Top, Sym, Adt, Ref, FnV, UNIT, Infeasible, adt_base_name, TyRef, ty_s
 
 OPTION = "std::option::Option"
 RESULT = "std::result::Result"
@@ -60,6 +60,12 @@ def split_enum(interp, v, st, tystr, label=None):
     return out
 
 
+def _fresh(interp, st, v):
+    if isinstance(v, Sym):
+        return interp.fresh_sym(st, v.name)
+    return v
+
+
 def opt_cases(interp, v, st, label):
     """case split of an Option value: [(Adt, st)], writing the refinement back when v is behind a Ref"""
     target = None
@@ -72,9 +78,14 @@ def opt_cases(interp, v, st, label):
         return [(inner, st)]
     lab = inner.label if isinstance(inner, Top) else label
     out = []
+    known = st.bind.get("v:%s" % lab)
     for vix, vname in ((0, "None"), (1, "Some")):
+        if known is not None and known != vix:
+            continue
         st2 = st.fork()
-        val = NONE if vix == 0 else some(Top("%s.some" % lab))
+        st2.bind["v:%s" % lab] = vix
+        pty = inner.ty.arg(0) if isinstance(inner, Top) and isinstance(inner.ty, TyRef) and adt_base_name(inner.ty.s) == OPTION else None
+        val = NONE if vix == 0 else some(_fresh(interp, st2, interp.symbolic(pty, "%s.some" % lab)))
         st2.choose("variant(%s)" % lab, vname)
         if target is not None:
             base = st2.heap.get(target.addr)
@@ -90,9 +101,14 @@ def res_cases(interp, v, st, label):
         return [(inner, st)]
     lab = inner.label if isinstance(inner, Top) else label
     out = []
+    known = st.bind.get("v:%s" % lab)
     for vix, vname in ((0, "Ok"), (1, "Err")):
+        if known is not None and known != vix:
+            continue
         st2 = st.fork()
-        val = ok(Top("%s.ok" % lab)) if vix == 0 else err(Top("%s.err" % lab))
+        st2.bind["v:%s" % lab] = vix
+        pty = inner.ty.arg(vix) if isinstance(inner, Top) and isinstance(inner.ty, TyRef) and adt_base_name(inner.ty.s) == RESULT else None
+        val = ok(_fresh(interp, st2, interp.symbolic(pty, "%s.ok" % lab))) if vix == 0 else err(interp.symbolic(pty, "%s.err" % lab))
         st2.choose("variant(%s)" % lab, vname)
         out.append((val, st2))
     return out
@@ -384,14 +400,19 @@ def m_partial_eq(interp, fn, args, st, site, frame):
                         g += 1
                         continue
                     break
+                known = st.bind.get("v:%s" % x.label)
                 for vix, var in enumerate(variants):
+                    if known is not None and known != vix:
+                        continue
                     st2 = st.fork()
+                    st2.bind["v:%s" % x.label] = vix
                     val = Adt(y.name, vix, (), var["name"])
                     base = st2.heap.get(tgt.addr)
                     if base is None:
                         return None
                     st2.heap[tgt.addr] = interp.set_at(base, tgt.path, val)
-                    st2.choose("variant(%s)" % x.label, var["name"])
+                    if known is None:
+                        st2.choose("variant(%s)" % x.label, var["name"])
                     r = (vix == y.variant)
                     out.append((Const(1 if (r != ne) else 0, "bool"), st2))
                 return out
@@ -415,6 +436,7 @@ BASE_MODELS = [
     (r"^std::result::Result::<.*>::map_err", m_res_map_err),
     (r"^std::result::Result::<.*>::ok$", m_res_ok),
     (r"^std::result::Result::<.*>::is_ok$|^std::result::Result::<.*>::is_err$", m_res_is_ok),
+    (r"as std::clone::Clone>::clone$", m_clone),
     (r"as std::cmp::PartialOrd<log::LevelFilter>>::le$", m_log_disabled),
     (r"^log::max_level$", m_log_max_level),
     (r"as std::ops::Deref>::deref$", None),
